@@ -4,6 +4,7 @@ import Driver.History
 import Driver.Io
 import Driver.Totp
 import Driver.Key
+import Driver.Merge
 /-!
 `kpdriver`: reads one JSON case per line on stdin, runs the Lean model (and, where it differs, the reference
 specification) on the case's inputs and prints one JSON line per case:
@@ -20,6 +21,7 @@ def dispatch (op : String) (j : Json) : R Json :=
   | "iowrite" => opIoWrite j
   | "totp" => opTotp j
   | "key" => opKey j
+  | "merge" => opMerge j
   | "selftest" => opSelfTest j
   | _ => throw s!"unknown op {op}"
 
